@@ -1204,6 +1204,9 @@ class BareServer():
                 steward.requestant.parse()
 
                 if steward.requestant.ended:
+                    if steward.requestant.errored:  # can't respond to invalid request
+                        self.closeConnection(ca)
+                        continue
                     steward.requestant.dictify()
                     logger.info("Parsed Request: %s %s %s",
                                 steward.requestant.method,
